@@ -151,7 +151,7 @@ func runGroup(cfg groupCfg) (res groupResult) {
 		return nodes[len(nodes)-1].g.WaitParents
 	}
 	check := func(at string) {
-		gdump.WaitQuiescent()
+		waitQuiescent()
 		for _, w := range ws {
 			p := pending(w.n)
 			res.Checks++
@@ -170,7 +170,7 @@ func runGroup(cfg groupCfg) (res groupResult) {
 				}
 			}
 			// (re-)issue
-			st := w.a.Do(call(w))
+			st := do(w.a, call(w))
 			w.issued = st == gdump.Blocked
 			if st == gdump.Blocked {
 				res.Parked++
@@ -220,13 +220,13 @@ func runGroup(cfg groupCfg) (res groupResult) {
 	// release parked waiters (none should be) and shut the tree down
 	sd := gdump.NewActor("group-shutdown")
 	defer sd.Close()
-	if st := sd.Do(root.g.Shutdown); st != gdump.Returned {
+	if st := do(sd, root.g.Shutdown); st != gdump.Returned {
 		viol("group/shutdown-never-returns", "Group.Shutdown() of an idle tree is parked for ever")
 		return
 	}
 	for _, p := range pools {
 		p := p
-		if st := sd.Do(p.pool.ShutdownComplete.Wait); st != gdump.Returned {
+		if st := do(sd, p.pool.ShutdownComplete.Wait); st != gdump.Returned {
 			gs := gdump.Snapshot()
 			viol("group/pool-shutdown-hangs", "after Group.Shutdown() pool %s never completes its shutdown (%s)", p.name, patternOf(gs, nil))
 			return
